@@ -22,6 +22,7 @@ type SpecEnv struct {
 	depth   int
 	qvars   []string  // bound SMT variables of enclosing quantifiers (innermost last)
 	loop    *loopInfo // loop whose invariant is being evaluated (for atentry / sameregion)
+	bound   map[string]Val // variables bound by enclosing quantifiers
 	fuel    int       // fuel of heap-dependent recursive function applications (when fuelSet)
 	fuelSet bool
 	pats    *[]string // pattern candidates of the innermost quantifier
@@ -36,6 +37,10 @@ func (se *SpecEnv) sub() *SpecEnv {
 	n.vars = make(map[string]Val, len(se.vars))
 	for k, v := range se.vars {
 		n.vars[k] = v
+	}
+	n.bound = make(map[string]Val, len(se.bound))
+	for k, v := range se.bound {
+		n.bound[k] = v
 	}
 	return &n
 }
@@ -321,6 +326,9 @@ func (se *SpecEnv) binary(x *ast.BinaryExpr) (Val, error) {
 	}
 	// nil comparisons against slices
 	cmpTerm := func(v Val, other Val) string {
+		if v.Loc != nil {
+			return "1" // an interior pointer is never nil
+		}
 		if v.S == SSlice && other.Typ == untypedNil {
 			return proj("s-arr", v.T)
 		}
@@ -539,6 +547,9 @@ func (se *SpecEnv) call(x *ast.CallExpr) (Val, error) {
 				s.vars[k] = v
 			}
 		}
+		for k, v := range se.bound {
+			s.vars[k] = v
+		}
 		return s.expr(x.Args[0])
 	case "sameregion":
 		// the slice still lives in the backing array it had at loop entry, or in one allocated since
@@ -552,6 +563,9 @@ func (se *SpecEnv) call(x *ast.CallExpr) (Val, error) {
 		s := se.sub()
 		s.st = se.loop.inState
 		s.vars = fc.nameEnvAt(se.loop, se.loop.phiIn)
+		for k, v := range se.bound {
+			s.vars[k] = v
+		}
 		then, err := s.expr(x.Args[0])
 		if err != nil {
 			return Val{}, err
@@ -868,6 +882,7 @@ func (se *SpecEnv) quantRange(kind string, x *ast.CallExpr) (Val, error) {
 	s.pats = &pats
 	s.qvars = append(append([]string{}, se.qvars...), m)
 	s.vars[id.Name] = Val{T: mkSub(m, off), S: SInt, Typ: tInt}
+	s.bound[id.Name] = s.vars[id.Name]
 	body, err := s.boolExpr(x.Args[3])
 	if err != nil {
 		return Val{}, err
@@ -939,6 +954,7 @@ func (se *SpecEnv) quantSort(kind string, x *ast.CallExpr) (Val, error) {
 	s.pats = &pats
 	s.qvars = append(append([]string{}, se.qvars...), m)
 	s.vars[id.Name] = Val{T: m, S: fc.vc.sortOf(t), Typ: t}
+	s.bound[id.Name] = s.vars[id.Name]
 	body, err := s.boolExpr(x.Args[2])
 	if err != nil {
 		return Val{}, err
